@@ -489,6 +489,17 @@ def run(ctx):
         lim = rng.choice([3, 5, 8, 10])
         proj = gen_project(rng, lim)
         cfg = gen_config(rng, lim, anchored_ok)
+        # files sized around each RULE's own limit and warn point (the project's sizes are drawn around the global
+        # limit): a rule that lowers the limit below a global absolute warn point, or sets none of its own, is judged
+        # at its own boundaries
+        concrete = {"src/**": "src/r_a.rs", "tests/**": "tests/r_b.rs", "**/*.py": "src/r_c.py", "src/util/*": "src/util/r_d.rs",
+                    "**/big.rs": "src/gen/big.rs", "**/*.rs": "r_e.rs", "vendor/**": "vendor/r_f.rs"}
+        for r in cfg["rules"]:
+            path = concrete.get(r["pattern"][3:] if r["pattern"].startswith("**/") and r["pattern"][3:] in concrete else r["pattern"])
+            if path and rng.random() < 0.6:
+                rl = r["max_lines"]
+                size = max(0, rng.choice([rl - 1, rl, rl + 1, ceil_pct(rl, 0.9), ceil_pct(rl, 0.5), rl // 2]))
+                proj.add_file(path, size, rng.choice([0, 0, 2]), rng.choice([0, 1]))
         with Sandbox() as sb:
             for rel in proj.files:
                 sb.write(rel, proj.body(rel))
